@@ -32,7 +32,7 @@ theorem sorted_modules_topological (mods : List Name) (att : Name → List Name)
 example : Acyclic ["u", "io", "x"] (fun n => if n = "u" then ["io"] else if n = "x" then ["u", "io"] else []) :=
   ⟨fun n => if n = "x" then 2 else if n = "u" then 1 else 0, by decide, by decide⟩
 
-/-- full statement of the shutdown clause for a whole life of the node -/
+/-- full statement of the shutdown clause for a whole life of the node, against the *declared* attachments -/
 def shutdown_order_statement : Prop :=
   ∀ (cfg : Cfg) (fuel : Nat) (sched : List Act) (pick : List Name → Nat),
     let r := run cfg fuel sched pick
@@ -40,6 +40,31 @@ def shutdown_order_statement : Prop :=
     ShutdownOrder r.st.modules
       ((declaredEdges (allMods cfg r.st.ioDict) r.st.ioDict).filter (fun e => (names (allMods cfg r.st.ioDict)).contains e.2))
       r.log
+
+/-- the shutdown clause for a whole life of the node (every schedule, every choice function), against the *resolved*
+attachments (`attachedModules`) of the started node, which are assumed acyclic and closed.  Missing for
+`shutdown_order_statement`: that a node which came up has resolved exactly its declared attachments and that they are
+acyclic (this is what `get_module` checks; the invariant `edges ⊆ completion order` is not proved). -/
+theorem shutdown_order_whole_run (cfg : Cfg) (fuel : Nat) (sched : List Act) (pick : List Name → Nat)
+    (herr : (run cfg fuel sched pick).st.errors = [])
+    (hclosed : ∀ e ∈ (run cfg fuel sched pick).st.edges,
+      e.1 ∈ (run cfg fuel sched pick).st.modules → e.2 ∈ (run cfg fuel sched pick).st.modules)
+    (hacyc : ∃ rank : Name → Nat, (∀ e ∈ (run cfg fuel sched pick).st.edges, rank e.2 < rank e.1) ∧
+      ∀ m ∈ (run cfg fuel sched pick).st.modules, rank m ≤ (run cfg fuel sched pick).st.modules.length) :
+    ShutdownOrder (run cfg fuel sched pick).st.modules (run cfg fuel sched pick).st.edges
+      (run cfg fuel sched pick).log := by
+  rw [(run_log cfg fuel sched pick).1] at herr hclosed hacyc ⊢
+  rw [(run_log cfg fuel sched pick).2]
+  simp only [herr, List.isEmpty_nil, if_true, laterPart]
+  have : (startup cfg fuel).log ++ (waitPhase (startup cfg fuel) sched ++ [Ev.shutdownbegin] ++
+      shutdownLog (startup cfg fuel).modules (threadsOf (startup cfg fuel)) (startup cfg fuel).edges pick) =
+      ((startup cfg fuel).log ++ (waitPhase (startup cfg fuel) sched ++ [Ev.shutdownbegin])) ++
+      shutdownLog (startup cfg fuel).modules (threadsOf (startup cfg fuel)) (startup cfg fuel).edges pick := by
+    simp [List.append_assoc]
+  rw [this]
+  obtain ⟨rank, hr, hb⟩ := hacyc
+  exact shutdownOrder_prefix _ _ _ _ (before_shutdown_plain cfg fuel sched)
+    (shutdownLog_order _ _ _ pick rank (startup_modsNd cfg fuel) hclosed hr hb)
 
 /-- proved part: the shutdown phase (`shutdown_modules`) of the model stops every poll thread first, shuts every
 module down exactly once and users before the modules attached to them, whenever the resolved attachments of the
@@ -57,11 +82,14 @@ example : ∃ rank : Name → Nat, (∀ e ∈ [("u", "io"), ("x", "u")], rank e.
     ∀ m ∈ ["io", "u", "x"], rank m ≤ ["io", "u", "x"].length :=
   ⟨fun n => if n = "x" then 2 else if n = "u" then 1 else 0, by decide, by decide⟩
 
-def ready_after_first_round_statement : Prop :=
-  ∀ (cfg : Cfg) (fuel : Nat) (sched : List Act) (pick : List Name → Nat),
-    ReadyAfterFirstRound (run cfg fuel sched pick).log
+/-- `ready_after_first_round`, full: in every life of the node (every configuration, schedule of start loop / poll
+threads / clock, choice function) `ready` is logged at most once, and before it every poll thread that is ever started
+has been started and has reported its first round, or the deadline has passed and the thread is named as timed out. -/
+theorem ready_after_first_round (cfg : Cfg) (fuel : Nat) (sched : List Act) (pick : List Name → Nat) :
+    ReadyAfterFirstRound (run cfg fuel sched pick).log :=
+  run_ready cfg fuel sched pick
 
-/-- proved part, for every schedule of the start loop, the poll threads and the clock: at the moment the waiting main
+/-- the same at the level of the machine, for every schedule: at the moment the waiting main
 thread reports ready, the start loop is complete and every poll thread that was started has reported its first round,
 or the deadline has passed and the thread is named as timed out.  Missing for the full statement: the bookkeeping that
 turns "at the moment of `ready`" into positions in the complete log. -/
